@@ -202,7 +202,7 @@ func checkRangeSplit(p *core.Prog, r *core.Report) {
 	headGuarded := false
 	{
 		var leEdges []core.Edge
-		core.Instrs(fn, func(in ssa.Instruction) {
+		core.InstrsDeep(fn, func(in ssa.Instruction) {
 			ifi, ok := in.(*ssa.If)
 			if !ok || !loop.Body[ifi.Block()] {
 				return
@@ -303,7 +303,7 @@ func checkRangeSplit(p *core.Prog, r *core.Report) {
 			return ok && bo.Op == token.SUB && isRecvField(bo.X, endF) && isRecvField(bo.Y, startF)
 		}
 		var longEdges []core.Edge
-		core.Instrs(fn, func(in ssa.Instruction) {
+		core.InstrsDeep(fn, func(in ssa.Instruction) {
 			ifi, ok := in.(*ssa.If)
 			if !ok {
 				return
@@ -451,7 +451,7 @@ func checkRangesMergedFn(p *core.Prog, r *core.Report, name string) {
 		eq              core.Edge
 	}
 	var adjs []adj
-	core.Instrs(fn, func(in ssa.Instruction) {
+	core.InstrsDeep(fn, func(in ssa.Instruction) {
 		ifi, ok := in.(*ssa.If)
 		if !ok {
 			return
